@@ -79,6 +79,8 @@ def case_strategy(draw):
             if all(abs(ra[i] - ra[j]) > 1e-6 or abs(dec[i] - dec[j]) > 1e-6 for j in keep):
                 keep.append(i)
         case["centers"] = [[math.radians(ra[i]), math.radians(dec[i])] for i in keep]
+        # the centres are handed over as coordinates or, as documented, as another catalog
+        case["centers_from"] = draw(st.sampled_from(["coords", "coords", "catalog"]))
     if fault == "nonfinite":
         case["column"] = draw(st.sampled_from(["ra", "dec", "w", "z"]))
         case["value"] = draw(st.sampled_from(["nan", "inf", "-inf"]))
@@ -175,6 +177,11 @@ def run_case(case):
 
     with Scratch() as tmp:
         target = tmp / "target"
+        if kw.get("patch_centers") is not None and case.get("centers_from") == "catalog":
+            import pandas as pd
+
+            kw["patch_centers"] = Catalog.from_dataframe(tmp / "donor", pd.DataFrame({"ra": centers[:, 0], "dec": centers[:, 1]}), ra_name="ra", dec_name="dec", degrees=False, patch_centers=AngularCoordinates(centers), max_workers=1)
+            ck.cls("centres-from-catalog")
         # ---------------- prior disk state
         prior_is_cache = False
         if fault in ("exists_no_overwrite", "exists_no_overwrite_trees", "overwrite_cache"):
